@@ -6,6 +6,7 @@ package main
 import (
 	"fmt"
 	"go/types"
+	"regexp"
 	"sort"
 	"strings"
 )
@@ -245,6 +246,7 @@ func runC03(cx *CheckCtx) {
 				continue
 			}
 			req, inTable := tWitness[key]
+			req = retargetParams(m, req)
 			if !inTable {
 				// default obligation: every effect is gated by some witness
 				cx.Notes = append(cx.Notes, "unclassified method "+key)
@@ -420,4 +422,30 @@ func exitPos(w *World, ex *Exit) string {
 		}
 	}
 	return "end of " + fq(ex.Ctx.fn)
+}
+
+var paramRe = regexp.MustCompile(`Param\((\w+)\)`)
+
+// retargetParams: the table names parameters as the reference tree does; a
+// parameter renamed since is found by its recorded position.
+func retargetParams(m *Method, req [][]string) [][]string {
+	ord := abiParamOrder[m.C.Name+"."+m.GoName]
+	if len(ord) != len(m.Fn.Params) {
+		return req
+	}
+	out := make([][]string, len(req))
+	for i, disj := range req {
+		for _, s := range disj {
+			out[i] = append(out[i], paramRe.ReplaceAllStringFunc(s, func(x string) string {
+				n := paramRe.FindStringSubmatch(x)[1]
+				for j, o := range ord {
+					if o == n {
+						return "Param(" + m.Fn.Params[j].Name() + ")"
+					}
+				}
+				return x
+			}))
+		}
+	}
+	return out
 }
